@@ -292,6 +292,59 @@ func run(c *core.Ctx) {
 		}
 	}
 	c.SetExhaustive("all pairs of selector atoms")
+	// nesting depth: a bracket stack kept in a machine word or a fixed array forgets its outermost
+	// entries (seeded C16-m9: bit 64 of a uint64); every depth up to 70 and the powers of two
+	// around 128 .. 65536, homogeneous and mixed openers, balanced and with one wrong, missing or
+	// surplus closer at the outermost, the middle and the innermost level
+	depths := []int{}
+	for d := 1; d <= 70; d++ {
+		depths = append(depths, d)
+	}
+	for _, d := range []int{127, 128, 129, 255, 256, 257, 511, 512, 513, 1023, 1024, 1025, 4095, 4096, 4097, 65535, 65536, 65537} {
+		depths = append(depths, d)
+	}
+	closer := map[byte]byte{'(': ')', '[': ']'}
+	other := map[byte]byte{')': ']', ']': ')'}
+	for _, d := range depths {
+		for pat := 0; pat < 4; pat++ {
+			idx++
+			if !c.Mine(idx) {
+				continue
+			}
+			open := make([]byte, d)
+			for i := range open {
+				switch pat {
+				case 0:
+					open[i] = '('
+				case 1:
+					open[i] = '['
+				case 2:
+					open[i] = "(["[i%2]
+				default:
+					open[i] = "[("[(i/3)%2]
+				}
+			}
+			cl := make([]byte, d)
+			for i := range cl {
+				cl[i] = closer[open[d-1-i]]
+			}
+			check(c, "a"+string(open)+string(cl), styles[0])
+			for _, at := range []int{0, d / 2, d - 1} {
+				// cl[at] closes open[d-1-at]: at=d-1 is the outermost level
+				bad := append([]byte(nil), cl...)
+				bad[at] = other[bad[at]]
+				check(c, "a"+string(open)+string(bad), styles[idx%len(styles)])
+				check(c, "a"+string(open)+string(cl[:at])+string(cl[at+1:]), styles[0])
+				check(c, "a"+string(open)+string(cl[:at])+string(cl[at:at+1])+string(cl[at:]), styles[0])
+			}
+			// the opener that is forgotten first is the outermost one: a different kind in front
+			for _, o := range []byte{'(', '['} {
+				check(c, "a"+string(o)+string(open)+string(cl)+string(other[closer[o]]), styles[0])
+				check(c, "a"+string(o)+string(open)+string(cl)+string(closer[o]), styles[1])
+			}
+		}
+	}
+	c.SetExhaustive("bracket nesting depths 1..70 and around 2^7..2^16 x four opener patterns x wrong, missing, surplus closer at three levels")
 	r := c.Rng("soup")
 	n := c.N(600000, 10000000) / c.NShards
 	for i := 0; i < n; i++ {
